@@ -539,6 +539,31 @@ Proof.
 Qed.
 Print Assumptions tie_wb_eq.
 
+(* ================================================================ interfaces: __init__ *)
+
+(* every interface class builds its signature from its own arguments, unflipped, and refuses exactly when the
+   signature class refuses; FieldPort(signature) keeps the object it is given (the isinstance check cannot fail
+   for a FieldPort.Signature, flipped or not) *)
+Theorem tie_iface_init :
+  (forall aw dw, gen_csr_Interface_init aw dw =
+     rmap (fun s => {| csr_Interface_signature := (false, s) |}) (gen_csr_Signature_init aw dw)) /\
+  (forall w a, gen_csr_Element_init w a =
+     rmap (fun s => {| csr_Element_signature := (false, s) |}) (gen_csr_Element_Signature_init w a)) /\
+  (forall aw dw g fs, gen_wishbone_Interface_init aw dw g fs =
+     rmap (fun s => {| wishbone_Interface_signature := (false, s) |}) (gen_wishbone_Signature_init aw dw g fs)) /\
+  (forall t, gen_event_Source_init t =
+     rmap (fun s => {| event_Source_signature := (false, s) |}) (gen_event_Source_Signature_init t)) /\
+  (forall sv, gen_csr_FieldPort_init sv = Ok {| csr_FieldPort_signature := sv |}).
+Proof.
+  split; [|split; [|split; [|split]]].
+  - intros aw dw. unfold gen_csr_Interface_init. destruct (gen_csr_Signature_init aw dw); reflexivity.
+  - intros w a. unfold gen_csr_Element_init. destruct (gen_csr_Element_Signature_init w a); reflexivity.
+  - intros aw dw g fs. unfold gen_wishbone_Interface_init. destruct (gen_wishbone_Signature_init aw dw g fs); reflexivity.
+  - intro t. unfold gen_event_Source_init. destruct (gen_event_Source_Signature_init t); reflexivity.
+  - intros [f s]. reflexivity.
+Qed.
+Print Assumptions tie_iface_init.
+
 (* ================================================================ interfaces: the memory_map setters *)
 
 (* csr.Interface.memory_map = m: both widths must agree (the isinstance check cannot fail for a MemoryMap) *)
@@ -879,7 +904,8 @@ Proof.
       cbn [wishbone_Interface_signature snd]. pose proof Ax as Ax'. rewrite S in Ax'. injection Ax' as A1 A2 A3 _.
       rewrite A1, A2, A3, M1, M2. cbn [zof]. rewrite Z.eqb_refl. cbn [negb].
       destruct (ratio_pow2 d g' Pd Pg Pl) as (j & J & _). rewrite J. cbn [bind].
-      rewrite <- (sram_addr size d g' j P Pd Pg Pl) by (auto; lia). rewrite Z.eqb_refl. cbn [negb bind rmap cv].
+      pose proof (sram_addr size d g' j P Pd Pg Pl (proj1 (Z.ltb_ge _ _) L2) (proj1 (Z.leb_gt _ _) K) J) as SA.
+      rewrite <- SA, Z.eqb_refl. cbn [negb bind rmap cv].
       unfold wb_attr. cbn [wishbone_sram_WishboneSRAM_port_wb_bus wishbone_sram_WishboneSRAM_ports wishbone_Interface_signature fst snd xorb].
       rewrite Ax. reflexivity.
   - destruct (wb_init_err _ _ (VInt g') _ _ I E) as (e' & M & <-). cbn [gran_arg] in M.
@@ -1056,3 +1082,126 @@ Proof.
   rewrite Fs, Fm, As, Am, Ays, Ayb. reflexivity.
 Qed.
 Print Assumptions tie_evmon_ports.
+
+(* ================================================================ gpio.Peripheral *)
+
+Definition gpio_view (pins : Z) (ps : list port) : res (list (string * amem) * sigv) :=
+  match ps with
+  | [b; p] => Ok ([("bus", AIface b []); ("pins", AIface p [pins]); ("alt_mode", APort FOut pins false [])],
+                  signature_of_port b)
+  | _ => Err OtherError
+  end.
+
+(* input_stages valid; the opaque steps (regs.add x 4 and csr.Bridge(regs.as_memory_map()); the final memory_map
+   hand-over) return *)
+Theorem tie_gpio_ports : forall pins a d st, 0 <= st ->
+  rmap (fun c => (absd (gpio_Peripheral_ports c), csr_attr (gpio_Peripheral_port_bus c)))
+       (gen_gpio_Peripheral_init (VInt pins) (VInt a) (VInt d) (VInt st) None None) =
+  match gpio_ports pins a d with
+  | MW.Ok ps => gpio_view pins ps
+  | MW.Err e => Err (cv_exn e)
+  end.
+Proof.
+  intros pins a d st Hst. unfold gen_gpio_Peripheral_init, gpio_ports, gen_csr_Builder_init. cbn [is_int zof negb orb].
+  destruct (pins <=? 0); [reflexivity|]. replace (st <? 0) with false by lia.
+  destruct (a <=? 0) eqn:Pa; [reflexivity|]. destruct (d <=? 0) eqn:Pd; [reflexivity|].
+  replace (8 <=? 0) with false by reflexivity.
+  destruct (negb (d =? d / 8 * 8)); [reflexivity|]. cbv zeta. cbn [bind opaque_step].
+  destruct (gen_csr_Signature_init _ _) as [s|e] eqn:E; cbn [bind rmap].
+  - destruct (csr_init_ok _ _ _ E) as [M A]. destruct (csr_create_ok _ _ _ E) as (x & C & Ax).
+    rewrite M. unfold gen_gpio_PinSignature_init. cbv zeta. cbn [bind MW.bind]. rewrite C. cbn [bind rmap].
+    unfold gpio_view, csr_attr. cbn [gpio_Peripheral_port_bus gpio_Peripheral_ports csr_Interface_signature fst snd xorb].
+    rewrite Ax. reflexivity.
+  - destruct (csr_init_err _ _ _ E) as (e' & M & <-). rewrite M. reflexivity.
+Qed.
+Print Assumptions tie_gpio_ports.
+
+(* ================================================================ components without a model function:
+   the lemmas pin the declaration to the expression written here *)
+
+(* csr.Register: {"element": Out(Element.Signature(width, access))}; width and access are computed by code the
+   translator does not read (they are parameters of the generated function, after the two opaque steps) *)
+Theorem tie_register_ports : forall a0 acc w,
+  rmap (fun c => (absd (csr_Register_ports c), elem_attr (csr_Register_port_element c)))
+       (gen_csr_Register_init a0 None acc None w) =
+  cv (fun s => ([("element", AIface (OUT (base s)) [])], base s)) (mk_elem w (acc_arg acc)).
+Proof.
+  intros a0 acc w. unfold gen_csr_Register_init. cbv zeta. cbn [opaque_step bind].
+  pose proof (tie_elem_init (VInt w) acc) as T. cbv beta iota in T.
+  destruct (gen_csr_Element_Signature_init (VInt w) acc) as [s|e] eqn:E; cbn [rmap bind] in *.
+  - destruct (mk_elem w (acc_arg acc)) as [x|e] eqn:M; cbn [cv] in T; [|discriminate T].
+    apply Ok_inj in T. unfold id in T. subst x.
+    pose proof (tie_elem_create s) as U. rewrite (create_same (AElem _ _) _ M) in U. cbn [cv] in U.
+    destruct (gen_csr_Element_Signature_create s) as [[[f y]]|e]; cbn [rmap bind] in *; [|discriminate U].
+    apply Ok_inj, pair_inj in U. cbn [fst snd csr_Element_signature] in U. destruct U as [-> U].
+    unfold elem_attr. cbn [cv csr_Register_port_element csr_Register_ports csr_Element_signature fst snd xorb].
+    rewrite U. reflexivity.
+  - destruct (mk_elem w (acc_arg acc)) as [x|e'] eqn:M; cbn [cv] in T; [discriminate T|]. injection T as ->. reflexivity.
+Qed.
+Print Assumptions tie_register_ports.
+
+(* csr.FieldAction: {"port": In(FieldPort.Signature(shape, access)), **members}, 'port' reserved *)
+Lemma absd_set k v d : absd (dict_set k v d) = dict_set k (absm v) (absd d).
+Proof.
+  induction d as [|[k' v'] d IH]; [reflexivity|]. cbn [dict_set absd map fst snd].
+  destruct (String.eqb k' k); [reflexivity|]. cbn [map fst snd]. f_equal. exact IH.
+Qed.
+Lemma absd_update d e : absd (dict_update d e) = dict_update (absd d) (absd e).
+Proof.
+  unfold dict_update. revert d. induction e as [|[k v] e IH]; intro d; [reflexivity|].
+  cbn [fold_left absd map fst snd]. rewrite IH, absd_set. reflexivity.
+Qed.
+Lemma absd_has k d : dict_has k (absd d) = dict_has k d.
+Proof. unfold dict_has, absd. induction d as [|[k' v] d IH]; [reflexivity|]. cbn [map existsb fst snd]. rewrite IH. reflexivity. Qed.
+
+Theorem tie_fieldaction_ports : forall sl a ms,
+  rmap (fun c => (absd (csr_FieldAction_ports c), field_attr (csr_FieldAction_port_port c)))
+       (gen_csr_FieldAction_init sl a ms) =
+  if dict_has "port" (absd ms) then Err ValueError
+  else cv (fun s => (dict_update [("port", AIface (IN (base s)) [])] (absd ms), flip (base s)))
+          (mk_field (cv_shapelike sl) (facc_arg a)).
+Proof.
+  intros sl a ms. unfold gen_csr_FieldAction_init. cbv zeta. rewrite absd_has.
+  destruct (dict_has "port" ms); [reflexivity|].
+  pose proof (tie_field_init sl a) as T.
+  destruct (gen_csr_FieldPort_Signature_init sl a) as [s|e]; cbn [rmap bind] in *.
+  - destruct (mk_field _ _) as [x|e]; cbn [cv] in T; [|discriminate T]. apply Ok_inj in T. unfold id in T. subst x.
+    unfold gen_csr_FieldPort_Signature_create, gen_csr_FieldPort_init. cbn [bind rmap cv].
+    unfold field_attr. cbn [csr_FieldAction_ports csr_FieldAction_port_port csr_FieldPort_signature fst snd xorb].
+    rewrite absd_update. reflexivity.
+  - destruct (mk_field _ _) as [x|e']; cbn [cv] in T; [discriminate T|]. injection T as ->. reflexivity.
+Qed.
+Print Assumptions tie_fieldaction_ports.
+
+(* the csr.action classes: which members each hands to FieldAction.__init__, under which access string.
+   (`In(shape)` casts the shape first, so a non-shape-like argument is refused before FieldAction sees it;
+   the opaque step of RW / RW1C / RW1S is the range check of `init` and the storage Signal.) *)
+Definition fa := gen_csr_FieldAction_init.
+Definition pin (sh : shape) : pmember gsig := m_port (p_in sh).
+Definition pout (sh : shape) : pmember gsig := m_port (p_out sh).
+Definition after (o : option exn) (r : res csr_FieldAction) : res csr_FieldAction := let! c := r in let! _ := opaque_step o in Ok c.
+
+Theorem tie_action_ports : forall sl o,
+  gen_csr_action_R_init sl =
+    (let! sh := shape_cast sl in fa sl (ERaw (RStr "r")) [("r_data", pin sh); ("r_stb", pout (sh_int 1))]) /\
+  gen_csr_action_W_init sl =
+    (let! sh := shape_cast sl in fa sl (ERaw (RStr "w")) [("w_data", pout sh); ("w_stb", pout (sh_int 1))]) /\
+  gen_csr_action_RW_init sl o =
+    (let! sh := shape_cast sl in after o (fa sl (ERaw (RStr "rw")) [("data", pout sh)])) /\
+  gen_csr_action_RW1C_init sl o =
+    (let! sh := shape_cast sl in after o (fa sl (ERaw (RStr "rw")) [("data", pout sh); ("set", pin sh)])) /\
+  gen_csr_action_RW1S_init sl o =
+    (let! sh := shape_cast sl in after o (fa sl (ERaw (RStr "rw")) [("clear", pin sh); ("data", pout sh)])) /\
+  gen_csr_action__Reserved_init sl = fa sl (ERaw (RStr "nc")) [] /\
+  gen_gpio_Peripheral_Output__FieldAction_init o =
+    after o (fa (SLCast 1 false) (ERaw (RStr "rw")) [("data", pout (sh_int 1)); ("set", pin (sh_int 1)); ("clr", pin (sh_int 1))]).
+Proof.
+  intros sl o. unfold fa, after, pin, pout.
+  unfold gen_csr_action_R_init, gen_csr_action_W_init, gen_csr_action_RW_init, gen_csr_action_RW1C_init,
+    gen_csr_action_RW1S_init, gen_csr_action__Reserved_init, gen_gpio_Peripheral_Output__FieldAction_init.
+  repeat split; try (destruct (shape_cast sl) as [sh|e]; cbn [bind map fst snd]; [|reflexivity]);
+    cbn [map fst snd sh_int];
+    match goal with |- context [gen_csr_FieldAction_init ?a ?b ?c] => destruct (gen_csr_FieldAction_init a b c) end;
+    reflexivity.
+Qed.
+Print Assumptions tie_action_ports.
